@@ -69,6 +69,8 @@ fn odd_inputs() -> Vec<String> {
         "$", "${", "${}", "~~", "file://", "//", "file:///a/a", "FTP://a", "https://", "$a", "${a}", "${a}/$a", "$a$a", "${a", "$a}", "$HOME", "${HOME}/a",
         "~/a", "~/../..", "/a/../a/./a", "a\0b", "\0", "$a=b", "${\0}", "$=", "\n", "a\\b", "\u{202e}a", "\u{feff}", "e\u{301}", "/a/a/", "/a/:/", "/😀/é",
         "/{/a", "f:a+x", "a:a=rwx,d:u-w", "false", "FALSE", "0",
+        // characters whose case mapping changes their UTF-8 length
+        "\u{130}//", "\u{130}//\u{e9}", "a\u{130}b//c", "\u{212a}\u{212b}//", "\u{1e9e}://a", "file://\u{130}", "\u{130}", "/\u{212a}/\u{130}",
         // chmod expression shapes: empty clauses, truncated clauses, wrong symbols in each position
         ",", ",,", ",f:u+x", "f:u+x,", "f:u+x,,", "f:u+x,,f:g+x", "d:u+x,,d:g+x", ":", "f", "f:", "f:u", "f:u+", "::u+x", "f:,", "f:u,", "f:u+,", "z:u+x", "f:z+x", "f:u*x",
         "f:u+z", "f:u+xf:g+x", "afd:ugoa+-=rwx", "a:a-rwx,a:a+rwx,a:a=rwx",
